@@ -236,8 +236,12 @@ def body_of(def_lines, contents, what):
     expect(def_lines[0] == '{' and def_lines[-1] == '}', f'{what}: body not framed by braces: '
            f'{def_lines!r}', 'body-braces')
     got = def_lines[1:-1]
-    expect([g.rstrip() for g in got] == [w.rstrip() for w in want],
+    # the lines of the contents, in order, each shifted right by one common, non-empty indentation
+    expect([g.strip() for g in got] == [w.strip() for w in want],
            f'{what}: body {got!r} != indented contents {want!r}', 'body-contents')
+    expect(len({len(g) - len(g.lstrip()) - (len(w) - len(w.lstrip())) for g, w in zip(got, want)
+                if g.strip()}) <= 1, f'{what}: body lines are not shifted uniformly: {got!r}',
+           'body-indent')
 
 
 def check_fn(desc):
